@@ -36,11 +36,11 @@ BASES = {'a': (0.7, 0.8, 0.9), 'b': (-1.3, 2.1, 0.4), 'c': (25.0, -0.05, 3.0)}
 BAD_PATHS = ['zigzag', '', 'linear', 'spiral ', ' radial', 'r', 's', 'circle', 'radial2', 'spiralx',
              'above']
 
-COUNT_CONTRACT = ('Derivative: one value per element of x (sizes 1..3; returns size-1, size+1 values, or a '
-                  'scalar for size >= 2).  Hessdiag, Hessian: one value in total (returns a vector of k values, '
-                  'k in {0, 2, d, d+1} minus {1}).  Jacobian, Gradient accept any output length, so the only '
-                  'wrong count is an inconsistent one: d values at x, but d-1 / d+1 / a scalar (d >= 2) at '
-                  'every displaced point.')
+COUNT_CONTRACT = ('a function must return one value per input element (the statement of C11): Derivative, Hessdiag and '
+                  'Hessian are called with x of 1..3 elements and an f returning a different number of values (one fewer, '
+                  'one more, a scalar for size >= 2; for Hessdiag/Hessian k values, k in {0, 2, d+1} minus {1, d}).  '
+                  'Jacobian and Gradient accept any output length, so no wrong count exists for them; functions whose '
+                  'output length changes between evaluations are outside the statement and are not enumerated.')
 
 
 # ---------------------------------------------------------------------------------------------
@@ -471,14 +471,14 @@ def enumerate_cases(ctx):
                                 cases.append(dict(common, kind='control', mis='none', xvar='zeroimag',
                                                   fvar='real'))
     # -- wrong number of values
-    for cls in CLASSES:
+    for cls in ('Derivative', 'Hessdiag', 'Hessian'):
         for method in METHODS:
             ns = [1, 2] if cls == 'Derivative' else [None]
             for n in ns:
                 for order in order_menu(cls):
                     for dim in (1, 2, 3):
                         if cls in ('Hessdiag', 'Hessian'):
-                            wrongs = ['k=%d' % k for k in sorted({0, 2, dim, dim + 1} - {1})]
+                            wrongs = ['k=%d' % k for k in sorted({0, 2, dim + 1} - {1, dim})]
                         else:
                             wrongs = ['fewer', 'more'] + (['scalar'] if dim >= 2 else [])
                         for w in wrongs:
@@ -570,7 +570,7 @@ def enumerate_cases(ctx):
 
 def required_cells():
     req = ['complex/%s/%s/%s' % (c, m, s) for c in CLASSES for m in CMETHODS for s in ('x', 'f', 'both')]
-    req += ['count/%s/%s' % (c, m) for c in CLASSES for m in METHODS]
+    req += ['count/%s/%s' % (c, m) for c in ('Derivative', 'Hessdiag', 'Hessian') for m in METHODS]
     req += ['mc_n/n=%d' % n for n in (3, 4, 5, 6)]
     req += ['short/Derivative/%s' % m for m in METHODS if m != 'multicomplex']
     req += ['short/%s/%s' % (c, m) for c in ('Gradient', 'Jacobian', 'Hessdiag')
